@@ -26,12 +26,19 @@ func c02Gen(rt *rapid.T) wProg {
 	p := wProg{}
 	p.Cfg = wConfig{Users: 4, Root: gPct(rt, 35), Media: true}
 	p.Sess = append([]int(nil), gPick(rt, [][]int{{0, 1, 2}, {0, 0, 1, 2}, {0, 1, 1, 2}, {0, 1, 2, 3}, {0, 0, 1, 1, 2, 3}, {0, 1, 2, 2, 3}}, "layout")...)
+	// some connections talk protobuf (the gRPC endpoint's conversion both ways)
+	for k := range p.Sess {
+		if gPct(rt, 20) {
+			p.Cfg.Grpc = append(p.Cfg.Grpc, k)
+		}
+	}
 	isChan := gPct(rt, 35)
 	kind := "new"
 	if isChan {
 		kind = "nch"
 	}
-	p.Ops = append(p.Ops, wOp{K: "sub", S: 0, T: kind})
+	// the creator may restrict the own mode in the creating request
+	p.Ops = append(p.Ops, wOp{K: "sub", S: 0, T: kind, A: gPick(rt, []string{"", "", "", "", "", "", "JRPASDO", "JRPSO", "JWPASDO"}, "cmode")})
 	grpRef := func(s int) string {
 		if isChan && p.Sess[s] != 0 && gPct(rt, 60) {
 			return "c0"
@@ -196,6 +203,22 @@ func c02Gen(rt *rapid.T) wProg {
 			// the owner's {del topic} fails in the store: the topic lives on and takes messages
 			p.Ops = append(p.Ops, wOp{K: "sub", S: 0, T: "g0"}, wOp{K: "fault", N: 1, A: "TopicDelete"}, wOp{K: "del", S: 0, T: "g0", A: "topic", F: gPct(rt, 50)},
 				wOp{K: "pub", S: 0, T: "g0"})
+		case y >= 28 && y < 31 && p.Cfg.Root:
+			// an account is suspended and reinstated while its P2P topic stays loaded; then the peer writes
+			p.Ops = append(p.Ops, wOp{K: "sub", S: 0, T: "p1"}, wOp{K: "acc", S: 0, U: 1, A: "susp"}, wOp{K: "acc", S: 0, U: 1, A: "ok"}, wOp{K: "pub", S: 0, T: "p1"})
+		case y >= 31 && y < 35:
+			// P2P: one side takes W away from the other, the topic is unloaded and loaded back, the other side writes
+			for k := range p.Sess {
+				if p.Sess[k] == 1 {
+					p.Ops = append(p.Ops, wOp{K: "sub", S: 0, T: "p1"}, wOp{K: "sub", S: k, T: "p0"},
+						wOp{K: "set", S: 0, T: "p1", A: "given", U: 1, B: gPick(rt, []string{"JRPA", "JRA", "JRWPA"}, "p2pgiven")}, wOp{K: "reload", T: "p1"},
+						wOp{K: "pub", S: k, T: "p0"}, wOp{K: "pub", S: 0, T: "p1"})
+					break
+				}
+			}
+		case y >= 35 && y < 38:
+			// the group is unloaded and loaded back, then its creator writes (with whatever mode the creator asked for)
+			p.Ops = append(p.Ops, wOp{K: "reload", T: "g0"}, wOp{K: "sub", S: 0, T: "g0"}, wOp{K: "pub", S: 0, T: "g0"})
 		case y < 8 && p.Cfg.Root:
 			// P2P: one participant unsubscribes, the topic unloads, the other one is suspended, the first
 			// comes back (the topic is loaded with one subscription missing) and publishes
